@@ -36,11 +36,13 @@ Small(v) == CASE v.t = "int" -> v.v \in -40..40
 P1 == 40009
 SeqCode(xs) == IF Len(xs) = 0 THEN 0 ELSE IF Len(xs) = 1 THEN 1 + xs[1] ELSE IF Len(xs) = 2 THEN 10 + 9 * xs[1] + xs[2]
                ELSE 100 + 81 * xs[1] + 9 * xs[2] + xs[3]
-Idx(x, names) == IF \E i \in DOMAIN names : names[i] = x THEN CHOOSE i \in DOMAIN names : names[i] = x ELSE 0
 OpNames == <<"const", "cont", "call", "getitem", "getattr", "meth", "bin", "un", "nout">>
-NmNames == <<"list", "tuple", "set", "dict", "dictk", "slice", "slice_to", "obj", "nt", "f1", "f2", "tup", "tag", "count",
+NmNames == <<"", "list", "tuple", "set", "dict", "dictk", "slice", "slice_to", "obj", "nt", "f1", "f2", "tup", "tag", "count",
              "add", "sub", "mul", "floordiv", "lt", "neg", "invert", "x", "y", "a", "b">>
-NodeCode(nd) == (Idx(nd.op, OpNames) * 977 + Idx(nd.nm, NmNames) * 131 + SeqCode(nd.xs) * 17 + SeqCode(nd.kx) * 5
+\* name -> position (constant functions, evaluated once)
+OpCode == [s \in Range(OpNames) |-> CHOOSE i \in DOMAIN OpNames : OpNames[i] = s]
+NmCode == [s \in Range(NmNames) |-> CHOOSE i \in DOMAIN NmNames : NmNames[i] = s]
+NodeCode(nd) == (OpCode[nd.op] * 977 + NmCode[nd.nm] * 131 + SeqCode(nd.xs) * 17 + SeqCode(nd.kx) * 5
                  + (IF nd.w THEN 3 ELSE 0) + nd.i * 7 + (IF nd.dkn = "" THEN 0 ELSE 11)
                  + (IF nd.op = "const" /\ nd.v.t = "int" THEN nd.v.v ELSE 0)) % P1
 Mix(a, b) == LET x == ((a + 1) * 7919 + b * 104 + 13) % P1
@@ -52,54 +54,61 @@ ProgHash(p) == ProgHashUpTo(p, Len(p))
 
 \* ---------------------------------------------------------------- the menu
 Menu(p, I, pu, salt, rate) ==
-  LET       m  == Len(p)
+  LET m  == Len(p)
       R  == 1..m
-      V(j) == I[j].val
-      D(j) == I[j].d
-      A0 == {<<>>}
-      A1 == { <<a>> : a \in R }
-      A2 == { <<a, b>> : a \in R, b \in R }
+      VV == [j \in R |-> I[j].val]
+      DD == [j \in R |-> I[j].d]
+      Dl == { j \in R : DD[j] }
+      \* at the last level only operations that complete an exportable program are candidates: they use every
+      \* node that is still unused (then every node feeds the last one) and are Delayed objects
+      last   == NOps(p) + 1 = MaxOps
+      unused == { i \in R : \A j \in (i + 1)..m : i \notin NodeRefs(p[j]) }
+      Cov(S) == IF last THEN { xs \in S : unused \subseteq Range(xs) } ELSE S
+      A0 == Cov({<<>>})
+      A1 == Cov({ <<a>> : a \in R })
+      A2 == Cov({ <<a, b>> : a \in R, b \in R })
+      D1 == { xs \in A1 : DD[xs[1]] }                 \* first operand is a Delayed
+      D2 == { xs \in A2 : DD[xs[1]] }
+      W  == IF last THEN {TRUE} ELSE BOOLEAN
       Fs == IF \E j \in R : p[j].op = "call" /\ p[j].nm = "f1" THEN {"f1", "f2"} ELSE {"f1"}
       named == \E j \in R : p[j].dkn # ""
       calls ==
         { Call(f, xs, <<>>, <<>>, pu, "", 0) : f \in Fs, xs \in A0 \cup A1 \cup A2 }
-        \cup { Call(f, xs, <<"k">>, <<b>>, pu, "", 0) : f \in Fs, xs \in A0 \cup A1, b \in R }
+        \cup { Call(f, <<>>, <<"k">>, kx, pu, "", 0) : f \in Fs, kx \in A1 }
+        \cup { Call(f, <<ab[1]>>, <<"k">>, <<ab[2]>>, pu, "", 0) : f \in Fs, ab \in A2 }
         \cup (IF named THEN {} ELSE { Call("f1", xs, <<>>, <<>>, pu, "kk", 0) : xs \in A1 })
         \cup { Call("tup", xs, <<>>, <<>>, pu, "", Len(xs)) : xs \in A1 \cup A2 }
       access ==
-        { GetItem(a, k) : a \in { x \in R : D(x) }, k \in { y \in R : TRUE } }
-        \cup { NoutItem(a, i) : a \in { x \in R : p[x].op = "call" /\ p[x].i > 0 }, i \in 0..1 }
-        \cup { GetAttr(a, nm) : a \in { x \in R : D(x) }, nm \in {"x", "y", "a", "b"} }
-        \cup { Meth(a, "tag", xs, <<>>, <<>>, pu, "") : a \in { x \in R : D(x) }, xs \in A0 \cup A1 }
-        \cup { Meth(a, "tag", <<>>, <<"k">>, <<b>>, pu, "") : a \in { x \in R : D(x) }, b \in R }
-        \cup { Meth(a, "count", <<k>>, <<>>, <<>>, pu, "") : a \in { x \in R : D(x) }, k \in R }
-        \cup { Bin(nm, a, b) : nm \in {"add", "sub", "mul", "floordiv", "lt"}, a \in R, b \in R }
-        \cup { Un(nm, a) : nm \in {"neg", "invert"}, a \in { x \in R : D(x) } }
+        { GetItem(ab[1], ab[2]) : ab \in D2 }
+        \cup { NoutItem(a[1], i) : a \in { x \in D1 : p[x[1]].op = "call" /\ p[x[1]].i > 0 }, i \in 0..1 }
+        \cup { GetAttr(a[1], nm) : a \in { x \in D1 : VV[x[1]].t \in {"obj", "nt"} }, nm \in {"x", "y", "a", "b"} }
+        \cup { Meth(a[1], "tag", <<>>, <<>>, <<>>, pu, "") : a \in { x \in D1 : VV[x[1]].t = "obj" } }
+        \cup { Meth(ab[1], "tag", <<ab[2]>>, <<>>, <<>>, pu, "") : ab \in { x \in D2 : VV[x[1]].t = "obj" } }
+        \cup { Meth(ab[1], "tag", <<>>, <<"k">>, <<ab[2]>>, pu, "") : ab \in { x \in D2 : VV[x[1]].t = "obj" } }
+        \cup { Meth(ab[1], "count", <<ab[2]>>, <<>>, <<>>, pu, "") : ab \in { x \in D2 : IsSeq(VV[x[1]]) } }
+        \cup { Bin(nm, ab[1], ab[2]) : nm \in {"add", "sub", "mul", "floordiv", "lt"}, ab \in { x \in A2 : DD[x[1]] \/ DD[x[2]] } }
+        \cup { Un(nm, a[1]) : nm \in {"neg", "invert"}, a \in { x \in D1 : IsInt(VV[x[1]]) } }
       conts ==
-        { Cont(k, xs, w) : k \in {"list", "tuple", "set"}, xs \in A1 \cup A2, w \in BOOLEAN }
-        \cup { Cont(k, xs, w) : k \in {"obj", "nt", "slice", "dictk"}, xs \in A2, w \in BOOLEAN }
-        \cup { Cont("slice_to", xs, w) : xs \in A1, w \in BOOLEAN }
-        \cup { DictC(<<"p">>, xs, w) : xs \in A1, w \in BOOLEAN }
-        \cup { DictC(<<"p", "q">>, xs, w) : xs \in A2, w \in BOOLEAN }
+        { Cont(k, xs, w) : k \in {"list", "tuple", "set"}, xs \in A1 \cup A2, w \in W }
+        \cup { Cont(k, xs, w) : k \in {"obj", "nt", "slice", "dictk"}, xs \in A2, w \in W }
+        \cup { Cont("slice_to", xs, w) : xs \in A1, w \in W }
+        \cup { DictC(<<"p">>, xs, w) : xs \in A1, w \in W }
+        \cup { DictC(<<"p", "q">>, xs, w) : xs \in A2, w \in W }
       \* value-directed: the reference semantics gives a (small) value, and dask can express the node
-      ok(nd) == LET v == EvalNode(nd, [j \in R |-> V(j)]) IN
+      ok(nd) == LET v == EvalNode(nd, VV) IN
                 /\ ~IsErr(v) /\ Small(v)
-                /\ BuildableNode(nd, [j \in R |-> D(j)])
+                /\ BuildableNode(nd, DD)
                 /\ (nd.op = "nout" => nd.i < p[nd.xs[1]].i)
-                \* slices hold ints; set members / dict keys that are two different Delayed objects with one key
-                \* cannot be compared by Python (Delayed.__eq__ is lazy): not a program
-                /\ (nd.op = "cont" /\ nd.nm \in {"slice", "slice_to"} => \A i \in DOMAIN nd.xs : IsInt(V(nd.xs[i])))
+                \* slices hold ints; set members that are two different Delayed objects with one key cannot be
+                \* compared by Python (Delayed.__eq__ is lazy): not a program
+                /\ (nd.op = "cont" /\ nd.nm \in {"slice", "slice_to"} => \A i \in DOMAIN nd.xs : IsInt(VV[nd.xs[i]]))
                 /\ (nd.op = "cont" /\ nd.nm = "set" /\ Len(nd.xs) = 2 /\ nd.xs[1] # nd.xs[2]
-                      => I[nd.xs[1]].arg # I[nd.xs[2]].arg /\ V(nd.xs[1]) # V(nd.xs[2]))
-      \* at the last level only operations that complete an exportable program: they use every node that is
-      \* still unused (then every node feeds the last one) and are Delayed objects
-      unused == { i \in R : \A j \in (i + 1)..m : i \notin NodeRefs(p[j]) }
-      pre(nd) == NOps(p) + 1 < MaxOps \/ (unused \subseteq NodeRefs(nd) /\ (nd.op # "cont" \/ nd.w))
+                      => I[nd.xs[1]].arg # I[nd.xs[2]].arg /\ VV[nd.xs[1]] # VV[nd.xs[2]])
       \* access operations are 4 times as likely as calls, containers half (their menu is the largest)
       sel(nd, r) == r >= 1000 \/ Mix(NodeCode(nd), salt) % 1000 < r
-  IN { nd \in calls : pre(nd) /\ sel(nd, rate) /\ ok(nd) }
-     \cup { nd \in access : pre(nd) /\ sel(nd, 4 * rate) /\ ok(nd) }
-     \cup { nd \in conts : pre(nd) /\ sel(nd, IF rate >= 1000 THEN rate ELSE (rate + 1) \div 2) /\ ok(nd) }
+  IN { nd \in calls : sel(nd, rate) /\ ok(nd) }
+     \cup { nd \in access : sel(nd, 4 * rate) /\ ok(nd) }
+     \cup { nd \in conts : sel(nd, IF rate >= 1000 THEN rate ELSE (rate + 1) \div 2) /\ ok(nd) }
 
 \* leaves and results nobody uses yet; every operation uses at most 3 nodes
 Unused(p) == Cardinality({ i \in 1..(Len(p) - 1) : \A j \in (i + 1)..Len(p) : i \notin NodeRefs(p[j]) })
